@@ -370,7 +370,9 @@ def gen_case(rng, n_ops=40, focus="c10"):
         cfg += " sim=0.52"        # the default similarity threshold of the query cache: entries reused for similar queries
     ops = [cfg, "start"]
     ids = [1, 2, 3, 4, 5, 6] + ([4294967295] if rng.random() < 0.3 else [])
-    odd = [0, 4294967296, 7]
+    # out-of-range local ids whose HIGH word is another tenant's index and whose low word is a popular local id: an id mapping
+    # that forgets the range check lands them on that tenant's document (seeded change C10-3)
+    odd = [0, 4294967296, 7] + [(j << 32) | i for j in (1, 2) for i in (1, 2, 3, 5)]
     universe = sorted(set(ids + [0, 7, 4294967295]))
     weights = {"ins": 30, "del": 9, "um": 6, "q": 8, "bq": 5, "bd": 5, "bdf": 4, "bins": 5, "bload": 5,
                "search": 11, "bsearch": 3, "flush": 2, "usage": 3, "probe": 4, "restart": 2, "nokey": 3}
